@@ -159,11 +159,15 @@ fn model_sweep(w: MW, timeout_s: u64) -> Option<St> {
         s => Some(s),
     }
 }
-/// expected status after a heartbeat; None = the text is silent (draining worker)
+/// expected status after a heartbeat; None = the text is silent (registering worker).
+/// A draining worker stays draining: "a heartbeat makes it available again" speaks about the worker
+/// a sweep marked unhealthy, and a worker somebody put into draining must not become a placement
+/// target again just because its process is still alive (found missing by seeded change C33).
 fn model_heartbeat(w: MW) -> Option<St> {
     match w.st {
         St::Unhealthy => Some(St::Ready),
-        St::Draining | St::Registering => None,
+        St::Draining => Some(St::Draining),
+        St::Registering => None,
         s => Some(s),
     }
 }
@@ -179,7 +183,7 @@ fn self_test() {
     assert_eq!(model_sweep(MW { st: St::Unhealthy, age: 60 }, 15), Some(St::Unhealthy));
     assert_eq!(model_heartbeat(MW { st: St::Unhealthy, age: 60 }), Some(St::Ready));
     assert_eq!(model_heartbeat(r(60)), Some(St::Ready));
-    assert_eq!(model_heartbeat(MW { st: St::Draining, age: 0 }), None);
+    assert_eq!(model_heartbeat(MW { st: St::Draining, age: 0 }), Some(St::Draining));
     assert_eq!(alphabet(2).len(), 18);
 }
 
